@@ -143,10 +143,21 @@ def main(ctx):
     ctx.rule = ("alias-table case = rate vector (n = 1..2000; equal, one dominant, many zeros, magnitudes over 1e15, "
                 "entries equal to the mean, small integers); random.choice is scripted to enumerate every table row and "
                 "random.uniform is integrated per row (grid + end points 0, 2^-53, 1-2^-53 + bisection), giving the exact "
-                "selection probability of every cell from the code's own answers; non-trivial = more than one cell")
+                "selection probability of every cell from the code's own answers; handler case = a real "
+                "LeafUnitCellVetoEventHandler on real CuboidPeriodicCells (3..6 cells per side, cubic and cuboid boxes) with "
+                "a real InnerPointEstimator, all three draws scripted: candidate time vs E/(beta*total*|c|*speed), target "
+                "offset distribution vs bound/total (rows enumerated, uniform integrated), confirmation limit vs the bound "
+                "recomputed by the harness for the target's offset, empty target cell; non-trivial = more than one cell")
     ctx.assumptions = ["Walker.sample_cell draws exactly one random.choice and one random.uniform (checked)"]
     jobs = [{"seed": ctx.seed, "shard": s, "n": n} for s in range(nshards)]
     ctx.run_workers("vf.monitors.c18:shard_walker", jobs)
+    hj = [{"seed": ctx.seed, "shard": s, "grids": ctx.pick(1, 4)} for s in range(ctx.pick(16, 64))]
+    ctx.run_workers("vf.monitors.c18:shard_handler", hj, timeout=1800)
+    ctx.require("handler_grids", 8)
+    ctx.require("candidate_times_checked", 2000)
+    ctx.require("offset_distributions_checked", 20)
+    ctx.require("confirmation_limits_checked", 100)
+    ctx.require("empty_target_checks", 100)
     ctx.require("tables_checked", 500)
     ctx.require("tables_with_zero_rates", 50)
     ctx.require("tables_large", 50)
@@ -156,3 +167,175 @@ def replay(acc, w):
     x = w["witness"]
     if "rates" in x:
         check_walker(acc, [float.fromhex(v) for v in x["rates"]])
+
+
+# -- cell-veto handler: rate, target cell, stored bound ------------------------------------------------------------------
+def check_handler(acc, rng, cps, layers, lengths, power, prefactor, use_charge, npos=6):
+    """Real LeafUnitCellVetoEventHandler on real CuboidPeriodicCells with a real InnerPointEstimator; all draws scripted."""
+    import contextlib
+    import io
+    import itertools
+    from vf.jf import init_setting
+    import jellyfysh.setting as setting
+    from jellyfysh.activator.internal_state.cell_occupancy.cells.cuboid_periodic_cells import CuboidPeriodicCells
+    from jellyfysh.base.node import Node
+    from jellyfysh.base.time import Time
+    from jellyfysh.base.unit import Unit
+    from jellyfysh.estimator.inner_point_estimator import InnerPointEstimator
+    from jellyfysh.event_handler.leaf_unit_cell_veto_event_handler import LeafUnitCellVetoEventHandler
+    from jellyfysh.potential.inverse_power_potential import InversePowerPotential
+    beta = rng.choice([1.0, 2.0, 0.5])
+    init_setting(3, lengths, beta=beta)
+    cells = CuboidPeriodicCells(cells_per_side=list(cps), neighbor_layers=layers)
+    pot = InversePowerPotential(power=float(power), prefactor=prefactor)
+    est_pref = rng.choice([1.0, 1.5])
+    est = InnerPointEstimator(potential=pot, prefactor=est_pref, points_per_side=2,
+                              target_charge=1.0 if use_charge else None) if use_charge else \
+        InnerPointEstimator(potential=pot, prefactor=est_pref, points_per_side=2)
+    wit = {"kind": "handler", "cps": list(cps), "layers": layers, "L": list(lengths), "power": power,
+           "prefactor": prefactor, "charge": use_charge}
+    h = LeafUnitCellVetoEventHandler(estimator=est, charge="q" if use_charge else None)
+    with contextlib.redirect_stdout(io.StringIO()):
+        h.initialize(cells, 1)
+    by_id = {tuple(c.identifier): c for c in cells.yield_cells()}
+    zero = by_id[(0, 0, 0)]
+    side = [lengths[d] / cps[d] for d in range(3)]
+    # independent bounds: index arithmetic for the non-nearby offsets, estimator called by the harness
+    offsets = []
+    for off in itertools.product(*[range(n) for n in cps]):
+        if all(min(off[d], cps[d] - off[d]) <= layers for d in range(3)):
+            continue
+        offsets.append(off)
+    bounds = {}
+    for off in offsets:
+        c = by_id[off]
+        lo = [c.cell_min[d] - zero.cell_max[d] for d in range(3)]
+        hi = [c.cell_max[d] - zero.cell_min[d] for d in range(3)]
+        for d in range(3):
+            ub, lb = est.derivative_bound(lo, hi, d, calculate_lower_bound=True)
+            bounds[(off, d)] = (ub, -lb)
+    acc.count("handler_grids")
+    for trial in range(npos):
+        d = rng.randrange(3)
+        speed = rng.choice([1.0, 1.0, 2.0, 0.25, 3.7])
+        q_active = rng.choice([1.0, -1.0, 0.5, -2.0]) if use_charge else 1.0
+        acell = by_id[tuple(rng.randrange(n) for n in cps)]
+        pos = [rng.uniform(acell.cell_min[k], acell.cell_max[k]) for k in range(3)]
+        stamp = (float(rng.choice([0, 3, 10 ** 6])), rng.random())
+        cf = q_active if use_charge else 1.0
+        idx = 0 if cf > 0 else 1
+        total = sum(max(bounds[(off, d)][idx], 0.0) for off in offsets)
+        if total <= 0:
+            continue
+
+        def fresh_in_state():
+            vel = [0.0, 0.0, 0.0]
+            vel[d] = speed
+            u = Unit(identifier=(0,), position=list(pos), charge={"q": q_active} if use_charge else None,
+                     velocity=vel, time_stamp=Time(*stamp))
+            return [Node(u, weight=1)]
+
+        # distribution over offsets + per-call checks
+        prob = {}
+        with Script() as s:
+            s.e = rng.choice([1.0, 0.37, 2.2])
+            s.row, s.u = 0, 0.5
+            h.send_event_time(fresh_in_state())
+            nrows = s.choice_len
+            for row in range(nrows):
+                s.row = row
+
+                def f(u):
+                    s.u = u
+                    s.uniform_args.clear()
+                    t, (target,) = h.send_event_time(fresh_in_state())
+                    off = tuple((target.identifier[k] - acell.identifier[k]) % cps[k] for k in range(3))
+                    return (off, (t.quotient, t.remainder))
+
+                meas, answers, ends, nev = measure_1d(f, grid=8)
+                acc.count("handler_calls", nev)
+                for (off, t), m in meas.items():
+                    prob[off] = prob.get(off, 0.0) + m / nrows
+                for off, t in answers:
+                    want_dt = s.e / beta / (total * abs(cf) * speed)
+                    got_dt = (t[0] - stamp[0]) + (t[1] - stamp[1])
+                    acc.count("candidate_times_checked")
+                    if abs(got_dt - want_dt) > 1e-9 * want_dt + 1e-15:  # the remainder of a Time resolves 1e-16
+                        acc.violation("C18:cell-veto-rate", f"candidate after {got_dt!r}, expected E/(beta*total*|c|*speed) = "
+                                                            f"{want_dt!r} (speed {speed}, charge factor {cf}, total {total!r})",
+                                      dict(wit, speed=speed, d=d, cf=cf))
+                        return
+                    if (off, d) not in bounds:
+                        acc.violation("C18:cell-veto-target-nearby", f"target offset {off} is a nearby cell", wit)
+                        return
+                    if not bounds[(off, d)][idx] > 0:
+                        acc.violation("C18:cell-veto-zero-rate-cell", f"target offset {off} has bound "
+                                                                      f"{bounds[(off, d)][idx]!r} <= 0", wit)
+                        return
+        worst = max(abs(prob.get(off, 0.0) - max(bounds[(off, d)][idx], 0.0) / total) for off in offsets)
+        acc.maxi("max_offset_probability_error", worst)
+        acc.count("offset_distributions_checked")
+        if worst > 1e-9:
+            off = max(offsets, key=lambda o: abs(prob.get(o, 0.0) - max(bounds[(o, d)][idx], 0.0) / total))
+            acc.violation("C18:cell-veto-offset-distribution",
+                          f"direction {d}, charge factor {cf}: P(offset {off}) = {prob.get(off, 0.0)!r}, bound/total = "
+                          f"{max(bounds[(off, d)][idx], 0.0) / total!r}", dict(wit, d=d, cf=cf))
+            return
+        # confirmation draw: upper limit = bound stored for the target's offset and direction (times charge factor)
+        for _ in range(12):
+            with Script() as s:
+                s.row = rng.randrange(nrows)
+                s.u = rng.random()
+                s.e = 1.0
+                t, (target,) = h.send_event_time(fresh_in_state())
+                off = tuple((target.identifier[k] - acell.identifier[k]) % cps[k] for k in range(3))
+                tpos = [rng.uniform(target.cell_min[k], target.cell_max[k]) for k in range(3)]
+                q_t = rng.choice([1.0, -1.0]) if use_charge else 1.0
+                tu = Unit(identifier=(1,), position=list(tpos), charge={"q": q_t} if use_charge else None)
+                s.uniform_args.clear()
+                s.u = 0.999999
+                out = h.send_out_state(Node(tu, weight=1))
+                if s.uniform_args:
+                    a, b = s.uniform_args[-1]
+                    want = bounds[(off, d)][idx] * abs(cf)
+                    acc.count("confirmation_limits_checked")
+                    if a != 0 or abs(b - want) > 1e-9 * abs(want):
+                        acc.violation("C18:cell-veto-confirmation-bound",
+                                      f"confirmation draw uniform({a!r}, {b!r}) but the bound stored for offset {off}, "
+                                      f"direction {d} times |charge factor| is {want!r}", dict(wit, d=d, cf=cf, off=list(off)))
+                        return
+            # empty target cell: nothing but time slicing
+            with Script() as s:
+                s.row, s.u, s.e = rng.randrange(nrows), rng.random(), 0.5
+                t, (target,) = h.send_event_time(fresh_in_state())
+                out = h.send_out_state(None)
+                u = out[0].value
+                dt = (t.quotient - stamp[0]) + (t.remainder - stamp[1])
+                wantpos = list(pos)
+                wantpos[d] = (pos[d] + speed * dt) % lengths[d]
+                acc.count("empty_target_checks")
+                if (len(out) != 1 or u.velocity is None or u.velocity[d] != speed
+                        or any(abs(u.position[k] - wantpos[k]) > 1e-9 * lengths[k] and
+                               abs(abs(u.position[k] - wantpos[k]) - lengths[k]) > 1e-9 * lengths[k] for k in range(3))
+                        or (u.time_stamp.quotient, u.time_stamp.remainder) != (t.quotient, t.remainder)):
+                    acc.violation("C18:cell-veto-empty-target", f"empty target cell: out-state {u.position}, {u.velocity}, "
+                                                                f"{u.time_stamp!r}; expected position {wantpos}", wit)
+                    return
+    setting.reset()
+
+
+def shard_handler(acc, prop="C18", seed=0, shard=0, grids=1):
+    rng = core.rng_for(prop, seed, "handler", shard)
+    for g in range(grids):
+        cps = [rng.randint(3, 6) for _ in range(3)]
+        if all(c <= 3 for c in cps):
+            cps[rng.randrange(3)] = 5
+        layers = 1
+        L = rng.choice([1.0, 2.0, 0.7])
+        lengths = [L] * 3 if rng.random() < 0.6 else [L, L * 1.3, L * 0.8]
+        if not any(c > 2 * layers + 1 for c in cps):
+            continue
+        acc.case(("handler", tuple(cps), tuple(lengths)), nontrivial=True)
+        check_handler(acc, rng, cps, layers, lengths, rng.choice([1, 2, 6]), rng.choice([1.0, 0.3]), rng.random() < 0.6)
+        if shard == 0 and g == 0:
+            acc.sample({"cells_per_side": cps, "system_lengths": lengths, "neighbor_layers": layers})
